@@ -133,7 +133,7 @@ PROPS = {
                 "compared: per-position classification of every listed entry; predicates on the implementation's output: a listed activity's actor id equals the owner's id, a listed reply's parent id equals the post's id, authors share the post's host (the authority url.Parse reads out of the two ids); non-trivial = at least one child or ancestor is listed; distinct by op content",
         "trusted": ["as C02", "extract/go2lean14.go and Model/GoPub.lean (translation of the listing filters)"],
         "assumptions": [],
-        "lean_modules": ["Props.Gen02", "Props.GenT02"],
+        "lean_modules": ["Props.Gen02", "Props.GenT02", "Props.Gen09", "Props.GenT09"],
         "shrink_budget": 3,
     },
     "C03": {
@@ -371,7 +371,7 @@ MANIFEST_TEXT = {
         "technique": "Lean 4 proof (interleaving model, invariant over all reachable states) over facts regenerated from the source by a translator + race-detector stress as validation",
     },
     "C09": {
-        "text": "Lean theorems: an outbox element is delivered as an activity iff construction succeeded, the owner has an id and the activity's resolved actor id equals it; a reply element is delivered as a post iff its resolved inReplyTo id equals the post's id; a post is built only if every resolved author shares its host; listings keep one entry per element in order, failures in place. The FetchUnknown that resolves every actor, reply target and author is tied to client.go by translation (Props/Gen02.lean, Props/GenT02.lean); the filters are tied to pub by differential correspondence on listings over multi-host worlds with impostors; genuineness predicates are evaluated on every implementation output.", "Lean theorems: an outbox element is delivered as an activity iff construction succeeded, the owner has an id and the activity's resolved actor id equals it; a reply element is delivered as a post iff its resolved inReplyTo id equals the post's id; a post is built only if every resolved author shares its host; listings keep one entry per element in order, failures in place. Tied to pub twice: the filters themselves - the outbox closure of NewActorFromObject, constructComment of NewPostFromObject, the forged-creators loop, getActors (goroutine fan-out in index order), getPostOrActor, New, NewTangible, the three identifier accessors and the type test at the head of the four constructors - are translated to Lean on every run (extract/go2lean14.go -> Generated/GoListing.lean; the item constructors and FetchUnknown are parameters) and proved equal to the model's for every world and entry, without panic (Props/Gen09.lean), and the theorems are restated about the code as translated (Props/GenT09.lean); and by differential correspondence on listings over multi-host worlds with impostors; genuineness predicates are evaluated on every implementation output.",
+        "text": "Lean theorems: an outbox element is delivered as an activity iff construction succeeded, the owner has an id and the activity's resolved actor id equals it; a reply element is delivered as a post iff its resolved inReplyTo id equals the post's id; a post is built only if every resolved author shares its host; listings keep one entry per element in order, failures in place. The FetchUnknown that resolves every actor, reply target and author is tied to client.go by translation (Props/Gen02.lean, Props/GenT02.lean). Tied to pub twice: the filters themselves - the outbox closure of NewActorFromObject, constructComment of NewPostFromObject, the forged-creators loop, getActors (goroutine fan-out in index order), getPostOrActor, New, NewTangible, the three identifier accessors and the type test at the head of the four constructors - are translated to Lean on every run (extract/go2lean14.go -> Generated/GoListing.lean; the item constructors and FetchUnknown are parameters) and proved equal to the model's for every world and entry, without panic (Props/Gen09.lean), and the theorems are restated about the code as translated (Props/GenT09.lean); and by differential correspondence on listings over multi-host worlds with impostors; genuineness predicates are evaluated on every implementation output.",
         "design_ref": "DESIGN.md §5 C09",
         "note": "Trusted: as C02; the translator extract/go2lean14.go and its semantics library (Model/GoPub.lean: errors as what errors.Is sees of them, the fan-out over disjoint cells run in index order; Model/GoSlices.lean: nil receivers panic).",
         "technique": "Lean 4 proof (case analysis of the listing filters, positions via the paging theorems; equivalence of the translated Go filters with the model) + differential correspondence",
